@@ -101,6 +101,9 @@ func genAction(r *gen.R) string {
 	case k < 65:
 		return act("remove", r.Pick([]string{"0", "2", "-1"}))
 	case k < 68:
+		if r.Chance(1, 4) {
+			return act("create", "N") // CreateEvent(nil): the apply handler is asked all the same
+		}
 		return act("create", jv(r))
 	case k < 71:
 		return act("delete")
@@ -599,10 +602,22 @@ func (reqDom) Exec(a []string) string {
 				if n > 0 {
 					firstAdd = 1
 					lopts = append(append([]res.Option{}, opts...), res.OptionFunc(func(h *res.Handler) {
-						h.Listeners = map[string]func(*res.Event){toks[1]: func(ev *res.Event) { log.add(fmt.Sprintf("L@%d@%s", 0, wire.Enc(ev.Name))) }}
+						// several entries: each pattern keeps its own listener (the other ones belong to resources that get no event here)
+						h.Listeners = map[string]func(*res.Event){
+							toks[1]: func(ev *res.Event) { log.add(fmt.Sprintf("L@%d@%s", 0, wire.Enc(ev.Name))) },
+						}
+						for _, decoy := range []string{"zz.decoy1", "zz.decoy2", "zz.decoy3"} {
+							decoy := decoy
+							h.Listeners[decoy] = func(ev *res.Event) { log.add("L@wrong-listener@" + wire.Enc(decoy)) }
+						}
 					}))
 				}
 				m.Handle(toks[1], lopts...)
+				if n > 0 {
+					for _, decoy := range []string{"zz.decoy1", "zz.decoy2", "zz.decoy3"} {
+						m.Handle(decoy, res.GetResource(func(r res.GetRequest) { r.NotFound() }))
+					}
+				}
 			})
 		} else {
 			s.Handle(pat, opts...)
